@@ -383,6 +383,7 @@ TASK_STATE_MACHINE_DATA = {
         events.ACTION_SUCCEEDED_TASK_DORMANT_ITEMS_PAUSED: statuses.PAUSED,
         events.ACTION_SUCCEEDED_TASK_DORMANT_ITEMS_CANCELED: statuses.CANCELED,
         events.ACTION_SUCCEEDED_TASK_DORMANT_ITEMS_FAILED: statuses.FAILED,
+        events.ACTION_SUCCEEDED: statuses.SUCCEEDED,
         events.ACTION_SUCCEEDED_TASK_DORMANT_ITEMS_INCOMPLETE: statuses.PAUSED,
         events.ACTION_SUCCEEDED_TASK_DORMANT_ITEMS_COMPLETED: statuses.SUCCEEDED,
     },
@@ -440,6 +441,7 @@ TASK_STATE_MACHINE_DATA = {
         events.ACTION_ABANDONED_TASK_DORMANT_ITEMS_FAILED: statuses.CANCELED,
         events.ACTION_ABANDONED_TASK_DORMANT_ITEMS_INCOMPLETE: statuses.CANCELED,
         events.ACTION_ABANDONED_TASK_DORMANT_ITEMS_COMPLETED: statuses.CANCELED,
+        events.ACTION_SUCCEEDED: statuses.SUCCEEDED,
         events.ACTION_SUCCEEDED_TASK_DORMANT_ITEMS_PAUSED: statuses.CANCELED,
         events.ACTION_SUCCEEDED_TASK_DORMANT_ITEMS_CANCELED: statuses.CANCELED,
         events.ACTION_SUCCEEDED_TASK_DORMANT_ITEMS_FAILED: statuses.CANCELED,
